@@ -2,7 +2,7 @@
     kind 0: a texttab API call sequence, the permutation sort.Slice produced for
             "cells by span", and the bytes Format wrote (or a panic);
     kind 1: a key slice and the breadth-first levels of benchproc.NewKeyHeader. *)
-From Perf Require Import Base.Bytes Base.Sx Model.Runes Model.TextTab Model.KeyHeader Model.LayoutObs.
+From Perf Require Import Base.Bytes Base.Sx Model.Runes Model.TextTab Model.KeyHeader Model.LayoutObs Model.Render.
 
 Definition as_align (s : sx) : option align :=
   match s with SZ 0 => Some ALeft | SZ 1 => Some ACenter | SZ 2 => Some ARight | _ => None end.
@@ -33,10 +33,52 @@ Definition as_hnode (s : sx) : option hnode :=
   | _ => None
   end.
 
+(** one real benchtab.Table: the abstract table (formatted strings recorded
+    from the Table), startRow, ToText's bytes, ToCSV's records (parsed back),
+    its row count, its warnings bytes *)
+Record tc_table := mkTC { tc_abs : rtable; tc_start : nat; tc_text : bytes;
+                          tc_recs : list (list bytes); tc_n : nat; tc_warn : bytes }.
+
+Definition as_cmp (s : sx) : option rcmp :=
+  match s with
+  | SL [SB d; SB p; w] => do w <- as_list as_b w; Some (mkCmp d p w)
+  | _ => None
+  end.
+Definition as_rcell (s : sx) : option rcell :=
+  match s with
+  | SL [SB c; SB t; SB r; sw; mw; cm] =>
+      do sw <- as_list as_b sw; do mw <- as_list as_b mw; do cm <- as_opt as_cmp cm;
+      Some (mkRC c t r sw mw cm)
+  | _ => None
+  end.
+Definition as_rsum (s : sx) : option rsum :=
+  match s with
+  | SL [h; SB c; SB t; hr; SB r; w] =>
+      do h <- as_bool h; do hr <- as_bool hr; do w <- as_list as_b w; Some (mkRS h c t hr r w)
+  | _ => None
+  end.
+Definition as_rtable (s : sx) : option rtable :=
+  match s with
+  | SL [SB unit; SB sl; nf; cols; rows; sums] =>
+      do nf <- as_nat nf; do cols <- as_list (as_list as_b) cols;
+      do rows <- as_list (as_pair as_b (as_list (as_opt as_rcell))) rows;
+      do sums <- as_list (as_opt as_rsum) sums;
+      Some (mkRT unit sl nf cols rows sums)
+  | _ => None
+  end.
+Definition as_tc (s : sx) : option tc_table :=
+  match s with
+  | SL [abs; st; SB text; recs; n; SB warn] =>
+      do abs <- as_rtable abs; do st <- as_nat st; do recs <- as_list (as_list as_b) recs; do n <- as_nat n;
+      Some (mkTC abs st text recs n warn)
+  | _ => None
+  end.
+
 Inductive case :=
 | KTable (ops : list op) (perm : list nat) (obs : observed)
 | KKeys (nf : nat) (keys : list key) (nlev : nat) (levels : list (list hnode))
-| KBench (tables : list (nat * list bytes)).       (* header line count, table lines *)
+| KBench (tables : list (nat * list bytes))        (* header line count, table lines *)
+| KTextCsv (tables : list tc_table).               (* abstract table + real text + real CSV *)
 
 Definition decode (s : sx) : option case :=
   match s with
@@ -49,6 +91,7 @@ Definition decode (s : sx) : option case :=
       Some (KKeys nf keys nlev levels)
   | SL [SZ 2; tabs] =>
       do tabs <- as_list (as_pair as_nat (as_list as_b)) tabs; Some (KBench tabs)
+  | SL [SZ 3; tabs] => do tabs <- as_list as_tc tabs; Some (KTextCsv tabs)
   | _ => None
   end.
 
@@ -105,6 +148,34 @@ Definition bench_table_ok (t : nat * list bytes) : bool :=
       && forallb (fun l => (length l <=? w)%nat && negb (ends_blank l)) rl
   end.
 
+(** model of ToCSV / ToText placement against the real renderings: CSV records and
+    warnings stream equal; the real text is a layout of exactly the cells the
+    model hands to texttab (located cell by cell), followed by the model's
+    footnote lines. (The byte-exact text would need the permutation of
+    texttab's internal span sort, which is not observable here.) *)
+Definition wline_bytes (w : wline) : bytes :=
+  let '(ref, row, msg) := w in
+  ref ++ rev (let fix dig (fuel n : nat) : bytes :=
+                match fuel with O => [] | S f =>
+                  match Byte.of_N (48 + N.of_nat (n mod 10)) with
+                  | Some b => b :: (if n / 10 =? 0 then [] else dig f (n / 10))%nat
+                  | None => [] end end in dig 20 row)
+      ++ [x3a; sp] ++ msg.
+
+Definition tc_corr (t : tc_table) : bool :=
+  let '(recs, ws) := csv_model (tc_abs t) (tc_start t) in
+  list_eqb (list_eqb beq) recs (tc_recs t)
+  && (tc_n t =? length recs)%nat
+  && list_eqb beq (map wline_bytes ws) (split_nl [] (tc_warn t))
+  && let '(ops, wl) := text_model (tc_abs t) in
+     match build ops, split_lines [] (tc_text t) with
+     | Some tb, Some lines =>
+         let ntab := if is_nilb (t_cells tb) then 0%nat else S (last_row (t_cells tb)) in
+         layout_obs_ok (t_cols tb) (t_cells tb) (firstn ntab lines)
+         && list_eqb beq (skipn ntab lines) (text_footer wl)
+     | _, _ => false
+     end.
+
 Definition corr_ok (c : case) : bool :=
   match c with
   | KTable ops perm obs =>
@@ -122,7 +193,8 @@ Definition corr_ok (c : case) : bool :=
       (length m =? length levels)%nat
       && list_eqb (list_eqb hnode_eqb) m levels
       && (nlev =? match keys with [] => 0 | _ => nf end)%nat
-  | KBench _ => true      (* benchtab's assembly is not modelled (Render.v absent): observation only *)
+  | KBench _ => true      (* observation only; the assembly is tied by kind 3 *)
+  | KTextCsv tabs => forallb tc_corr tabs
   end.
 
 Definition prop_ok (c : case) : bool :=
@@ -144,6 +216,7 @@ Definition prop_ok (c : case) : bool :=
   | KKeys nf keys nlev levels =>
       forallb (fun k => (length k =? nf)%nat) keys && header_ok nf keys levels
   | KBench tabs => forallb bench_table_ok tabs
+  | KTextCsv tabs => forallb (fun t => text_csv_ok (tc_start t) (tc_text t) (tc_recs t) (tc_warn t)) tabs
   end.
 
 Definition run_case (s : sx) : N :=
